@@ -90,6 +90,8 @@ type plDriver struct {
 	AfterStop       bool
 	// AfterBarrier: the driver becomes enabled when every shard of the first collection has signalled its barrier
 	AfterBarrier bool
+	// AfterFirst: the driver becomes enabled when the scenario's first driver has returned
+	AfterFirst bool
 	// OldPart: the announcement is about the earlier incarnation of the partition (its old id); NewPart: about the next one
 	OldPart bool
 	NewPart bool
@@ -459,6 +461,7 @@ type plRun struct {
 	barrierSeen    chan struct{}
 	barrierOnce    sync.Once
 	stopSeen       chan struct{} // closed when a resume driver has stopped its collection
+	firstDone      chan struct{} // closed when the first driver has returned
 	stopOnce       sync.Once
 	dropSeenClosed bool
 	evAt    []int // number of packs delivered (per stream) when the event was observed -> snapshot
@@ -523,6 +526,7 @@ func plExecute(t *testing.T, sc *plScenario, ctl *sched.Ctl) *plRun {
 		driverErr: map[string]error{}, driverDone: map[string]bool{}, wrapped: map[*replicateChannelHandler]bool{}, inAddPart: map[int64]bool{}, inStart: map[int64]string{}, replicateID: fmt.Sprintf("rid%d", plExecSeq), clockLeft: sc.Clock}
 	r.dropSeen = make(chan struct{})
 	r.stopSeen = make(chan struct{})
+	r.firstDone = make(chan struct{})
 	r.announced = map[string]bool{}
 	r.barrierSeen = make(chan struct{})
 	r.mq = fakemq.New(plSched{r})
@@ -671,7 +675,7 @@ func plExecute(t *testing.T, sc *plScenario, ctl *sched.Ctl) *plRun {
 		}
 	}()
 	for i, d := range sc.Drivers {
-		d := d
+		i, d := i, d
 		name := fmt.Sprintf("%s:%s%s#%d", d.Kind, sc.Colls[d.Coll].Name, d.Part, i)
 		go func() {
 			if d.AfterDrop {
@@ -682,6 +686,9 @@ func plExecute(t *testing.T, sc *plScenario, ctl *sched.Ctl) *plRun {
 			}
 			if d.AfterBarrier {
 				<-r.barrierSeen
+			}
+			if d.AfterFirst {
+				<-r.firstDone
 			}
 			r.pt("drv:"+name, "go", true)
 			c := sc.Colls[d.Coll]
@@ -751,6 +758,9 @@ func plExecute(t *testing.T, sc *plScenario, ctl *sched.Ctl) *plRun {
 			r.driverErr[name] = err
 			r.driverDone[name] = true
 			r.hmu.Unlock()
+			if i == 0 {
+				close(r.firstDone)
+			}
 		}()
 	}
 	if sc.Clock > 0 {
